@@ -317,6 +317,11 @@ def planClear (m : Mach U) (rid : Nat) : Mach U :=
   | some (hid, size) => { m with w := m.w.planClear rid hid size }
   | none => { m with w := m.w.fail' "unknown region" }
 
+/-- `attachLogger(logger)` (`R_::attachLogger`, machine.hpp: `_core.logger = logger;`): `attached = false`
+is `attachLogger(nullptr)`.  Nothing else of the instance changes; verbosity is a compile-time switch. -/
+def attachLogger (m : Mach U) (attached : Bool) : Mach U :=
+  { m with w := { m.w with cfg := { m.w.cfg with logging := attached } } }
+
 /-- `lastTransitionTo(stateId)`. -/
 def lastTransitionTo (m : Mach U) (sid : Nat) : Option Transition :=
   match m.w.targets.getD sid none with
